@@ -51,6 +51,9 @@ func runC10(cases []string, out *bufio.Writer, _ []string) {
 			log.TimeNow = func(ctx context.Context) time.Time {
 				nTime.Add(1)
 				check(ctx)
+				if curCtx.Load()%5 == 0 { // the hook's time is the record's time whatever it is, the zero time included
+					return time.Time{}
+				}
 				return time.Date(2001, 2, 3, 4, 5, 6, 7000000, time.UTC)
 			}
 		}
@@ -153,7 +156,11 @@ func runC10(cases []string, out *bufio.Writer, _ []string) {
 				seen = "1"
 				content = "1"
 				s := string(l)
-				if hooks[0] == '1' && !strings.Contains(s, "2001-02-03T04:05:06.007") {
+				wantTime := "2001-02-03T04:05:06.007"
+				if (i+1)%5 == 0 {
+					wantTime = "0001-01-01T00:00:00.000"
+				}
+				if hooks[0] == '1' && !strings.Contains(s, wantTime) {
 					content = "0"
 				}
 				if hooks[1] == '1' && !strings.Contains(s, fmt.Sprintf("cs%d", i+1)) {
